@@ -142,6 +142,9 @@ SCENQ(q_pause_vs_pause, 3, ({0, P}), 60, false, L({0, R}, {1, R}), L({1, P}), L(
 SCENQ(q_pause_vs_pause_prev, 4, ({0, P}), 60, false, L({0, R}, {1, R}, {0, Q}, {1, Q}, {2, Q}, {3, Q}, {0, Q}, {1, Q}), L({1, P}), L({2, Q}, {3, Q}, {2, Q}, {3, Q}))
 // retire racing with an epoch change completed by others
 SCENQ(q_retire_vs_epoch, 3, ({0, R}), 40, true, L({0, Q}, {1, R}, {1, Q}), L({2, Q}, {1, Q}, {2, Q}), L({0, 99}))
+// several retires by one thread after an epoch change completed by OTHERS and before its own next quiescent state (it has seen the new epoch
+// through a request but not through a quiescent state): every one of them must be kept
+SCENQ(q_2retire_new_epoch, 3, ({0, R}), 40, true, L({0, Q}, {1, Q}, {2, Q}, {0, R}), L({1, Q}), L({0, R}, {0, 99}))
 // resume (register) racing with quiescent states / a retire of others
 SCENQ(q_resume_vs_q, 3, ({0, U}), 40, true, L({0, P}, {1, R}, {1, Q}), L({2, Q}, {1, Q}), L({0, 99}))
 SCENQ(q_resume_vs_retire, 3, ({0, U}), 40, false, L({0, P}, {1, Q}, {2, Q}), L({1, R}, {2, Q}, {1, Q}), L({0, Q}))
